@@ -87,6 +87,10 @@ def random_scenario(rng, kind, policy=None, bind="", mapping_p=0.25, mon_p=0.4, 
           "arr": arr}
     if rng.random() < mon_p:
         sc["mon"] = {"incl": rng.choice([0, 1]), "gaps": [step * K * rng.choice([0, 1, 1, 2, 3]) for _ in range(rng.randint(1, 6))]}
+    if rng.random() < 0.12:
+        # the environment's clock does not start at 0 (VirtualClock's formula max(now, auxVC) presupposes auxVC = 0 at
+        # the start: no negative origin there)
+        sc["t0"] = rng.choice([3, 100] if kind == "VC" else [-50, -7, 3, 100])
     if rng.random() < 0.08:
         sc["noout"] = rng.choice([1, 2])    # the scheduler is the last element: no next hop (out = None / never assigned)
         sc["arr"] = [a for a in sc["arr"] if "after" not in a]
